@@ -6,6 +6,7 @@ package main
 // searched for canary-named elements or attributes.
 
 import (
+	"os"
 	"bytes"
 	"encoding/json"
 	"fmt"
@@ -47,6 +48,12 @@ func c18Payloads() []c18Payload {
 		{"path-dq", func(n int) string { return `/x">` + el(n) }},
 		{"path-sq-attr", func(n int) string { return fmt.Sprintf(`/x?a=' vfa%d=1 b='`, n) }},
 		{"path-query-dq-attr", func(n int) string { return fmt.Sprintf(`/x?a=" vfa%d=1 b="`, n) }},
+		// payloads that need no quote, angle bracket or entity: they only matter where a
+		// value is written without quotes around it
+		{"path-query-blank-attr", func(n int) string { return fmt.Sprintf(`/x?a=1 vfa%d=1`, n) }},
+		{"path-blank-attr", func(n int) string { return fmt.Sprintf(`/x vfa%d=1`, n) }},
+		{"path-query-tab-attr", func(n int) string { return fmt.Sprintf("/x?a=1\tvfa%d=1", n) }},
+		{"path-query-slash-attr", func(n int) string { return fmt.Sprintf(`/x?a=1/vfa%d=1`, n) }},
 		{"alnum-valid-name", func(n int) string { return fmt.Sprintf(`vfc%d`, n) }},
 	}
 }
@@ -194,6 +201,9 @@ func c18Run(w *vfWorld, sess map[string][]*http.Cookie, p c18Point) (violated bo
 	}
 	resp := w.Do(req)
 	if !c18IsHTML(resp) {
+		if os.Getenv("KMV_TRACE") != "" {
+			fmt.Printf("TRACE non-html: ct=%q body=%.300q log=%s\n", resp.Header.Get("Content-Type"), resp.Body, func() string { b := vfLogBuf.buf; if len(b) > 600 { b = b[len(b)-600:] }; return string(b) }())
+		}
 		return false, "", "", fmt.Sprintf("%s|non-html-%d", p.Route, resp.Code)
 	}
 	if hit := c18Scan(resp.Body); hit != "" {
